@@ -155,6 +155,7 @@ func TestPlan(t *testing.T) {
 		bs := ev.RapidShards("binary", "^TestFindBinary$", nb, cb, nil)
 		p.Shards = append(p.Shards, bs...)
 		p.Shards = append(p.Shards, ev.ShardSpec{Name: "unprivileged-0", Test: "^TestFindUnprivileged$", AsNobody: true, TimeoutS: 900})
+		p.Shards = append(p.Shards, ev.ShardSpec{Name: "relative-0", Test: "^TestFindRelative$", TimeoutS: 600})
 		p.Shards = append(p.Shards, ev.ShardSpec{Name: "deep-0", Test: "^TestFindDeep$", TimeoutS: 1200})
 	}
 	if err := ev.WritePlan(p); err != nil {
@@ -348,6 +349,41 @@ func TestFindUnprivileged(t *testing.T) {
 					if f := execFindPerm(base, c); f != nil && !seen[f.Sig] {
 						seen[f.Sig] = true
 						s.Violation("unpriv-find", f.Sig, f.Msg, f.Size, c)
+					}
+				}
+			}
+		}
+	}
+	if s.Failed() {
+		t.Fatal("violations recorded")
+	}
+}
+
+// TestFindRelative: the start directory given as a relative path (".", "d", "d/t"), which only a
+// caller of the Go API can do: the search must still end.
+func TestFindRelative(t *testing.T) {
+	s := ev.Open(t, "C17")
+	s.Watchdog(10*time.Second, 4<<30)
+	defer s.Done()
+	base := findBase(t)
+	var idx uint64
+	for _, cfg := range [][]int{{lvNothing, lvNothing, lvNothing}, {lvSpokfile, lvNothing, lvNothing}, {lvNothing, lvSpokfile, lvNothing}, {lvNothing, lvNothing, lvSpokfile}, {lvDirSpok, lvNothing, lvNothing}, {lvSpokBefore, lvNothing, lvDirSpok}} {
+		c := FindCase{Cfg: cfg, Child: []string{"d", "t"}}
+		if err := c.build(base); err != nil {
+			t.Fatal(err)
+		}
+		for cwdLevel := 0; cwdLevel < 3; cwdLevel++ {
+			for startLevel := cwdLevel; startLevel < 3; startLevel++ {
+				for _, stopLevel := range []int{0, cwdLevel, -1} {
+					c.Start, c.Stop, c.RelFrom = startLevel, stopLevel, cwdLevel+1
+					idx++
+					data, _ := json.Marshal(c)
+					s.Progress(idx, data)
+					s.Tick()
+					s.Eval()
+					s.NonTrivial("rel" + string(data))
+					if f := execFind(s, base, c); f != nil {
+						s.Violation("find", f.Sig, f.Msg, f.Size, c)
 					}
 				}
 			}
